@@ -1135,20 +1135,24 @@ func (app *App) init() *App {
 // the app, which if not set is the DefaultErrorHandler.
 func (app *App) ErrorHandler(ctx Ctx, err error) error {
 	var (
-		mountedErrHandler  ErrorHandler
-		mountedPrefixParts int
+		mountedErrHandler ErrorHandler
+		mountedPrefixLen  int
 	)
 
+	path := ctx.Path()
 	for prefix, subApp := range app.mountFields.appList {
-		if prefix != "" && strings.HasPrefix(ctx.Path(), prefix) {
-			parts := len(strings.Split(prefix, "/"))
-			if mountedPrefixParts <= parts {
-				if subApp.configured.ErrorHandler != nil {
-					mountedErrHandler = subApp.config.ErrorHandler
-				}
-
-				mountedPrefixParts = parts
-			}
+		// the mount prefix has to contain the path on a segment boundary
+		if prefix == "" || !strings.HasPrefix(path, prefix) {
+			continue
+		}
+		if len(path) > len(prefix) && prefix[len(prefix)-1] != '/' && path[len(prefix)] != '/' {
+			continue
+		}
+		// all candidates are prefixes of the same path, so their lengths are distinct:
+		// the longest one that configured a handler wins, whatever the iteration order
+		if subApp.configured.ErrorHandler != nil && len(prefix) > mountedPrefixLen {
+			mountedErrHandler = subApp.config.ErrorHandler
+			mountedPrefixLen = len(prefix)
 		}
 	}
 
